@@ -828,6 +828,109 @@ def run_case(c):
                 cmp_projectors(yaml_eigvecs(y), np.vstack(bd["eigenvectors"]), np.vstack(bd["frequencies"]), "band-eigvecs", "band.yaml")
             n_files += 1
             keys.append("wf|%s|band-eigvecs" % c["crystal"]["name"])
+        # ---- options whose EFFECT had only been compared between the option and the tag route, or not at all (round 6): each against the library call
+        #      the documentation names for it
+        def tprop_cmp(step, tw_):
+            y_ = load_yaml("thermal_properties.yaml")
+            txt_ = open(os.path.join(tmp, "thermal_properties.yaml")).read()
+            tp_ = tw_.get_thermal_properties_dict()
+            cmp_arr("temperatures", [t_["temperature"] for t_ in y_["thermal_properties"]], tp_["temperatures"], 7, step, "thermal_properties.yaml")
+            for k_ in ("free_energy", "entropy", "heat_capacity"):
+                cmp_arr(k_, [t_[k_] for t_ in y_["thermal_properties"]], tp_[k_], decimals_in(txt_, k_ + ":"), step, "thermal_properties.yaml")
+
+        def mesh_cmp(step, tw_, with_gv=False):
+            y_ = load_yaml("mesh.yaml")
+            txt_ = open(os.path.join(tmp, "mesh.yaml")).read()
+            md_ = tw_.get_mesh_dict()
+            fr_ = yaml_freqs(y_)
+            if fr_.shape != np.array(md_["frequencies"]).shape:
+                bad("output_shape", "mesh.yaml has %s q-points x bands, library %s" % (fr_.shape, np.array(md_["frequencies"]).shape), step=step, file="mesh.yaml", **feat)
+                return
+            cmp_arr("q-positions", [p_["q-position"] for p_ in y_["phonon"]], md_["qpoints"], 7, step, "mesh.yaml")
+            if [int(p_["weight"]) for p_ in y_["phonon"]] != [int(w_) for w_ in md_["weights"]]:
+                bad("output_mismatch", "mesh.yaml weights differ from the library's", step=step, file="mesh.yaml", quantity="weights", **feat)
+            cmp_arr("frequencies", fr_, md_["frequencies"], decimals_in(txt_, "frequency:"), step, "mesh.yaml")
+            if with_gv:
+                gv_ = np.array([[b["group_velocity"] for b in p_["band"]] for p_ in y_["phonon"]], float)
+                want_ = np.array(md_["group_velocities"], float).copy()
+                for iq in range(len(fr_)):
+                    for g in groups_of(np.array(md_["frequencies"])[iq]):
+                        if len(g) > 1:
+                            gv_[iq][g] = np.sort(gv_[iq][g], axis=0)
+                            want_[iq][g] = np.sort(want_[iq][g], axis=0)
+                cmp_arr("group_velocities", gv_, want_, decimals_in(txt_, "group_velocity:"), step, "mesh.yaml")
+
+        def qp_cmp(step, tw_, qs_, **kw_):
+            tw_.run_qpoints(qs_, **kw_)
+            cmp_arr("frequencies", yaml_freqs(load_yaml("qpoints.yaml")), tw_.get_qpoints_dict()["frequencies"], 10, step, "qpoints.yaml")
+
+        qarg3, qs3 = "0.1 0.2 0.3 1/2 0 0 0.25 0.25 0", [[0.1, 0.2, 0.3], [0.5, 0, 0], [0.25, 0.25, 0]]
+        effects = [
+            ("tprop-pretend-real", ["--mesh", "3", "3", "3", "-t", "--tmax", "300", "--tstep", "100", "--pretend-real"], "thermal_properties.yaml",
+             lambda tw_: (tw_.run_mesh([3, 3, 3]), tw_.run_thermal_properties(t_min=0, t_max=300, t_step=100, pretend_real=True), tprop_cmp("tprop-pretend-real", tw_))),
+            ("tprop-band-indices", ["--mesh", "3", "3", "3", "-t", "--tmax", "200", "--tstep", "100", "--bi", "1 2, 3"], "thermal_properties.yaml",
+             lambda tw_: (tw_.run_mesh([3, 3, 3]), tw_.run_thermal_properties(t_min=0, t_max=200, t_step=100, band_indices=[[0, 1], [2]]), tprop_cmp("tprop-band-indices", tw_))),
+            ("tprop-cutoff", ["--mesh", "3", "3", "3", "-t", "--tmin", "50", "--tmax", "250", "--tstep", "100", "--cutoff-freq", "1.5"], "thermal_properties.yaml",
+             lambda tw_: (tw_.run_mesh([3, 3, 3]), tw_.run_thermal_properties(t_min=50, t_max=250, t_step=100, cutoff_frequency=1.5), tprop_cmp("tprop-cutoff", tw_))),
+            ("mesh-shift", "MESH = 3 3 2\nMP_SHIFT = 0.5 0.5 0", "mesh.yaml",
+             lambda tw_: (tw_.run_mesh([3, 3, 2], shift=[0.5, 0.5, 0]), mesh_cmp("mesh-shift", tw_))),
+            ("mesh-gv-delta-q", ["--mesh", "3", "3", "3", "--gv", "--gv-delta-q", "0.01"], "mesh.yaml",
+             lambda tw_: (setattr(tw_, "_gv_delta_q", 0.01), tw_.run_mesh([3, 3, 3], with_group_velocities=True), mesh_cmp("mesh-gv-delta-q", tw_, with_gv=True))),
+            ("qpoints-cutoff-radius", ["--qpoints", qarg3, "--cutoff-radius", "3.2"], "qpoints.yaml",
+             "cutoff_radius"),
+            ("qpoints-fc-spg-symmetry", ["--qpoints", qarg3, "--fc-spg-symmetry"], "qpoints.yaml", "fc_spg"),
+            ("pdos-xyz", ["--mesh", "3", "3", "3", "--pdos", "1", "--xyz-projection", "--sigma", "0.3", "--fmin", "-1", "--fmax", "12", "--fpitch", "0.5"], "projected_dos.dat", None),
+            ("pdos-direction", ["--mesh", "3", "3", "3", "--pdos", "1", "--pd", "1", "1", "0", "--sigma", "0.3", "--fmin", "-1", "--fmax", "12", "--fpitch", "0.5"], "projected_dos.dat", None),
+        ]
+        if c["nac"]:
+            effects.append(("qpoints-nac-method-wang", ["--qpoints", qarg3, "--nac-method", "wang"], "qpoints.yaml", "wang"))
+            effects.append(("qpoints-q-direction", ["--qpoints", "0 0 0", "--q-direction", "1 1 0"], "qpoints.yaml", "qdir"))
+        for label, args_, fn_, fun in effects:
+            rm(fn_)
+            if isinstance(args_, str):  # a tag without an option: through a configuration file
+                open(os.path.join(tmp, "e.conf"), "w").write(args_ + "\n")
+                args_ = ["--config", "e.conf"]
+            if cli("phonopy-load", pre + args_, label) is None or not os.path.exists(os.path.join(tmp, fn_)):
+                continue
+            obs["option_effects"] = obs.get("option_effects", 0) + 1
+            tw = twin()
+            try:
+                if label.startswith("pdos-"):
+                    tw.run_mesh([3, 3, 3], with_eigenvectors=True, is_mesh_symmetry=False)
+                    kw_ = {"xyz_projection": True} if label == "pdos-xyz" else {"direction": [1, 1, 0]}
+                    tw.run_projected_dos(sigma=0.3, freq_min=-1, freq_max=12, freq_pitch=0.5, use_tetrahedron_method=False, **kw_)
+                    want = np.array(tw.get_projected_dos_dict()["projected_dos"])
+                    arr = np.loadtxt(os.path.join(tmp, "projected_dos.dat"))
+                    if arr.shape[1] - 1 == len(want):  # (the file holds every atom / component; the --pdos selection only groups the plot)
+                        cmp_arr("projected_dos (%s)" % label, arr[:, 1:].T, want, 10, label, "projected_dos.dat")
+                    else:
+                        bad("output_shape", "projected_dos.dat (%s) has %d columns, library %d" % (label, arr.shape[1] - 1, len(want)), step=label, file="projected_dos.dat", **feat)
+                elif fun == "cutoff_radius":
+                    # documented order of the post-processing: cutoff radius, (space-group symmetrisation,) then the default symmetrisation
+                    tw = twin(symmetrize=False)
+                    tw.set_force_constants_zero_with_radius(3.2)
+                    tw.symmetrize_force_constants()
+                    qp_cmp(label, tw, qs3)
+                elif fun == "fc_spg":
+                    tw = twin(full=True, symmetrize=False)  # (the command switches to the full layout for this option)
+                    tw.symmetrize_force_constants_by_space_group(show_drift=False)
+                    tw.symmetrize_force_constants()
+                    qp_cmp(label, tw, qs3)
+                elif fun == "wang":
+                    nacp_ = dict(tw.nac_params)
+                    nacp_["method"] = "wang"
+                    tw.nac_params = nacp_
+                    qp_cmp(label, tw, qs3)
+                elif fun == "qdir":
+                    qp_cmp(label, tw, [[0, 0, 0]], nac_q_direction=[1, 1, 0])
+                else:
+                    fun(tw)
+            except Exception as e_:
+                if "harness" in str(e_):
+                    raise
+                bad("library_twin_raised", "library call for step %s raised %r although the command ran" % (label, e_), step=label, **feat)
+            n_files += 1
+            keys.append("wf|%s|%s" % (c["crystal"]["name"], label))
         rm("qpoints.yaml")
         if cli("phonopy-load", pre + ["--qpoints", "0.1 0.2 0.3 1/2 0 0 0 0 0", "--writedm"], "writedm") is not None and os.path.exists(os.path.join(tmp, "qpoints.yaml")):
             tw = twin()
